@@ -75,7 +75,7 @@ Proof.
   destruct (comm && (1 <? q) && (num_of (finalized c s) <? checkpoint (c_L c) (num_of id))); [|simpl; auto].
   destruct (find_checkpoint c (apply_batch s wq) (q - 1) (finalized c s) id) as [f|] eqn:E; [|simpl; auto].
   pose proof (find_checkpoint_stored _ _ _ _ _ _ E) as Hf.
-  cbn [good_steps]. split; [exact I1|]. split; [exact M1|].
+  cbn [good_steps]. rewrite apply_batch_app. fold wq.
   split; [apply finalized_put_inv; auto|].
   split; [intros; apply single_put_stored_mono; auto; discriminate|].
   split; [apply single_put_stored_mono; auto; discriminate|exact Logic.I].
